@@ -376,6 +376,10 @@ func (ex *Exec) runAnchors(st *State, when, name string, ord int) (cut bool) {
 				st.assume(t)
 				if t == "false" {
 					cut = true
+				} else {
+					// vacuity guard: an assumed (rely) condition must not contradict what is known here
+					ex.oblige(st, "cover.assume", an.Props, "false", "the assumed condition is satisfiable here (must NOT be provable): "+an.Src, token.NoPos)
+					ex.obls[len(ex.obls)-1].Vacuity = true
 				}
 			}
 		}()
